@@ -368,6 +368,7 @@ type Terminal struct {
 	printsep           string
 	merger             *Merger
 	selected           map[int32]selectedItem
+	selectedSeq        uint64
 	version            int64
 	revision           revision
 	reqBox             *util.EventBox
@@ -421,7 +422,8 @@ type numLinesCacheValue struct {
 }
 
 type selectedItem struct {
-	at   time.Time
+	// Order of selection. Not a timestamp: the clock may not advance between two selections
+	seq  uint64
 	item *Item
 }
 
@@ -436,7 +438,7 @@ func (a byTimeOrder) Swap(i, j int) {
 }
 
 func (a byTimeOrder) Less(i, j int) bool {
-	return a[i].at.Before(a[j].at)
+	return a[i].seq < a[j].seq
 }
 
 const (
@@ -4357,7 +4359,8 @@ func (t *Terminal) selectItem(item *Item) bool {
 		return true
 	}
 
-	t.selected[item.Index()] = selectedItem{time.Now(), item}
+	t.selectedSeq++
+	t.selected[item.Index()] = selectedItem{t.selectedSeq, item}
 	t.version++
 
 	return true
